@@ -27,12 +27,13 @@ def run(pid, argv, want=None):
     # names, valued release), requires ports whose semantics alternate in declaration order, an injected port
     from checks.c11 import fixed_cases
     cases += fixed_cases() + SR.mixed_semantics_cases(('MSM', 'SMS')) + (SR.prefix_name_cases()[:1] + SR.prefix_name_cases()[3:4] if tier == 'quick' else SR.prefix_name_cases())
+    cases += SR.shadowed_extern_cases()[:3] if tier == 'quick' else SR.shadowed_extern_cases()
     suspects, breadth = SR.leg_a_suspects(rng, 100 if tier == 'quick' else 1500, want=want)
     rep.extra['cases_compared_with_the_model_only'] = breadth
     cases += suspects
     io, mo, plans = SR.tie_and_plans(cases)
     wd = legb.Workdir()
-    nv = 0
+    nv = nfail = 0
     try:
         jobs = []
         for ci, (c, i, m, pl) in enumerate(zip(cases, io, mo, plans)):
@@ -66,8 +67,9 @@ def run(pid, argv, want=None):
                     problem = f'event routing of the compiled shell: {d}'
             if not problem and tp:
                 problem, failing = f'correspondence legA:Builder.build broken (compiled behaviour still as demanded on this case): {tp}', False
-            if problem and nv < 5:
+            if problem and (nv < 5 or (failing and nfail < 3)):
                 nv += 1
+                nfail += 1 if failing else 0
                 rep.violation(problem, {'file': c['file'], 'configuration': c['cfg'],
                                         'how': 'build, compile shell + harness/gen_driver.py driver against harness/cpp/mock, run'},
                               failing_input=failing)
